@@ -8,8 +8,19 @@ package twig
 
 // ---------------------------------------------------------------- filters (C19, C05)
 
+// every integer kind is an integer (a number from the context is no less a number for being a uint8)
 //@ func toInt props: C05 C19
 //@   function
+//@   ensures[C19,C09] typeIs(v, "int") ==> ret1 == nil && ret0 == unboxAs(v, "int")
+//@   ensures[C19,C09] typeIs(v, "int8") ==> ret1 == nil && ret0 == unboxAs(v, "int8")
+//@   ensures[C19,C09] typeIs(v, "int16") ==> ret1 == nil && ret0 == unboxAs(v, "int16")
+//@   ensures[C19,C09] typeIs(v, "int32") ==> ret1 == nil && ret0 == unboxAs(v, "int32")
+//@   ensures[C19,C09] typeIs(v, "int64") ==> ret1 == nil && ret0 == unboxAs(v, "int64")
+//@   ensures[C19,C09] typeIs(v, "uint8") ==> ret1 == nil && ret0 == unboxAs(v, "uint8")
+//@   ensures[C19,C09] typeIs(v, "uint16") ==> ret1 == nil && ret0 == unboxAs(v, "uint16")
+//@   ensures[C19,C09] typeIs(v, "uint32") ==> ret1 == nil && ret0 == unboxAs(v, "uint32")
+//@   ensures[C19,C09] typeIs(v, "uint64") && unboxAs(v, "uint64") <= 9223372036854775807 ==> ret1 == nil && ret0 == unboxAs(v, "uint64")
+//@   ensures[C19,C09] typeIs(v, "uint") && unboxAs(v, "uint") <= 9223372036854775807 ==> ret1 == nil && ret0 == unboxAs(v, "uint")
 
 //@ func sliceBounds props: C05 C19
 //@   arith checked
@@ -499,6 +510,22 @@ package twig
 // notion of truth is the only one
 //@ func (*Parser).parseConditionalExpression props: C08
 //@   ensures[C08] err == nil ==> typeIs(ret0, "*ConditionalNode") && unboxAs(ret0, "*ConditionalNode").condition == condition
+// date reads the clock only for the values that mean "now" by definition: nil, the zero time, '',
+// '0', 'now' and the number 0 (C03: everything else is a fixed instant or an error)
+//@ func (*CoreExtension).filterDate props: C03
+//@   atcall[C03] time.Now value == nil || typeIs(value, "time.Time") || (typeIs(value, "string") && (unboxAs(value, "string") == "" || unboxAs(value, "string") == "0" || unboxAs(value, "string") == "now")) || (typeIs(value, "int64") && unboxAs(value, "int64") == 0) || (typeIs(value, "int") && unboxAs(value, "int") == 0) || (typeIs(value, "float64") && f_eq(unboxAs(value, "float64"), 0.0))
+//@   atcall[C03] time.Now#1 value == nil
+//@   atcall[C03] time.Now#2 typeIs(value, "time.Time")
+//@   atcall[C03] time.Now#3 typeIs(value, "string") && (unboxAs(value, "string") == "" || unboxAs(value, "string") == "0")
+//@   atcall[C03] time.Now#4 typeIs(value, "string") && unboxAs(value, "string") == "now"
+//@   atcall[C03] time.Now#5 typeIs(value, "int64") && unboxAs(value, "int64") == 0
+//@   atcall[C03] time.Now#6 typeIs(value, "int") && unboxAs(value, "int") == 0
+//@   atcall[C03] time.Now#7 typeIs(value, "float64") && f_eq(unboxAs(value, "float64"), 0.0)
+// the extension function behind parent() answers with a function its caller runs at once
+//@ list lazy_exempt (*CoreExtension).functionParent
+// what a macro call is worth: the text the macro renders
+//@ func renderMacroCall props: C08 C12
+//@   ensures[C08,C12] err == nil ==> typeIs(ret0, "string")
 //@ define binN() unboxAs(node, "*BinaryNode")
 //@ define condN() unboxAs(node, "*ConditionalNode")
 //@ define leftFalsy() !fn_toBool_0(ctx, evalRes(old(tr), binN().left, ctx))
@@ -515,6 +542,7 @@ package twig
 //@   ensures[C08] err == nil && typeIs(node, "*BinaryNode") && (binN().operator == "and" || binN().operator == "&&") && leftFalsy() ==> tr == emitEval(old(tr), binN().left, ctx) && typeIs(ret0, "bool") && !unboxAs(ret0, "bool")
 //@   ensures[C08] err == nil && typeIs(node, "*BinaryNode") && (binN().operator == "or" || binN().operator == "||") && !leftFalsy() ==> tr == emitEval(old(tr), binN().left, ctx) && typeIs(ret0, "bool") && unboxAs(ret0, "bool")
 //@   ensures[C08] err == nil && typeIs(node, "*BinaryNode") && !((binN().operator == "and" || binN().operator == "&&") && leftFalsy()) && !((binN().operator == "or" || binN().operator == "||") && !leftFalsy()) ==> tr == emitEval(emitEval(old(tr), binN().left, ctx), binN().right, ctx)
+//@   ensures[C08] err == nil && typeIs(node, "*UnaryNode") && unboxAs(node, "*UnaryNode").operator == "-" && fn_toNumber_1(ctx, evalRes(old(tr), unboxAs(node, "*UnaryNode").node, ctx)) ==> typeIs(ret0, "float64") && unboxAs(ret0, "float64") == f_sub(0.0, fn_toNumber_0(ctx, evalRes(old(tr), unboxAs(node, "*UnaryNode").node, ctx)))
 //@   ensures[C08] err == nil && typeIs(node, "*ConditionalNode") ==> tr == emitEval(emitEval(old(tr), condN().condition, ctx), ite(fn_toBool_0(ctx, evalRes(old(tr), condN().condition, ctx)), condN().trueExpr, condN().falseExpr), ctx)
 // operator meaning on the converted operands (float operations are named, not interpreted)
 //@ func (*RenderContext).toNumber props: C08
@@ -542,7 +570,9 @@ package twig
 //@   ensures[C08] err == nil && operator == "<=" && bothNum() ==> typeIs(ret0, "bool") && unboxAs(ret0, "bool") == f_le(lnum(), rnum())
 //@   ensures[C08] err == nil && operator == ">=" && bothNum() ==> typeIs(ret0, "bool") && unboxAs(ret0, "bool") == f_le(rnum(), lnum())
 //@   ensures[C08] err == nil && operator == "-" && bothNum() ==> typeIs(ret0, "float64") && unboxAs(ret0, "float64") == f_sub(lnum(), rnum())
-//@   ensures[C08] err == nil && operator == "*" && bothNum() ==> typeIs(ret0, "float64") && unboxAs(ret0, "float64") == f_mul(lnum(), rnum())
+// a quotient or product that is zero is the integer 0, never the float -0 (0 is added); so is the negation of zero
+//@   ensures[C08] err == nil && operator == "/" && bothNum() ==> typeIs(ret0, "float64") && unboxAs(ret0, "float64") == f_add(f_div(lnum(), rnum()), 0.0)
+//@   ensures[C08] err == nil && operator == "*" && bothNum() ==> typeIs(ret0, "float64") && unboxAs(ret0, "float64") == f_add(f_mul(lnum(), rnum()), 0.0)
 
 // ---------------------------------------------------------------- escape (C07)
 // ghost content of strings.Builder values
@@ -965,8 +995,10 @@ package twig
 // nothing without a parent - so a call reaches the same macro from every nesting depth.
 //@ func (*RenderContext).definesVariable props: C09
 //@   pure
-//@   loop 1 invariant c == ctx || !has(ctx.context, name)
+//@   loop 1 invariant c == ctx || (!has(ctx.context, name) && !(ctx.env != nil && has(ctx.env.globals, name)))
 //@   ensures[C09] has(ctx.context, name) ==> ret
+// a global of the engine is a variable too
+//@   ensures[C09,C12] ctx.env != nil && has(ctx.env.globals, name) ==> ret
 //@ func (*RenderContext).GetMacro
 //@   assumed
 //@   modifies nothing
@@ -1285,6 +1317,9 @@ package twig
 //@   ensures[C20] typeIs(container, "map[string]interface{}") && typeIs(index, "string") && has(itemMap(), unboxAs(index, "string")) ==> err == nil && ret0 == itemMap()[unboxAs(index, "string")]
 //@   ensures[C20] typeIs(container, "map[string]interface{}") && !(typeIs(index, "string") && has(itemMap(), unboxAs(index, "string"))) && has(itemMap(), fn_ToString_0(ctx, index)) ==> err == nil && ret0 == itemMap()[fn_ToString_0(ctx, index)]
 //@   ensures[C20] typeIs(container, "map[string]interface{}") && !(typeIs(index, "string") && has(itemMap(), unboxAs(index, "string"))) && !has(itemMap(), fn_ToString_0(ctx, index)) ==> err == nil && ret0 == nil
+// a typed map: only a string is converted to a string key type by Go's conversion (a number would
+// become the character with that code; it takes its decimal form like above)
+//@   atcall[C20] (reflect.Value).Convert#1 ufi_typeKind(a1) != 24 || ufi_kind(a0) == 24
 
 // ---------------------------------------------------------------- end of input, verbatim, Parse (C04, C14)
 // the token stream is closed only when the scan position has reached the end of the source, or
